@@ -191,7 +191,7 @@ class Framer(tasking.Tasker):
         """
         self.store.house.assignRegistries() # ensure Framer.names is houses registry
 
-        if not self.done:
+        if not self.done or self.active:  # done by its own 'done' verb leaves its frames entered
             console.profuse("Force exiting '{0}'\n".format(self.name))
             self.exitAll()
 
